@@ -121,6 +121,11 @@ class Term:
         # Now copy the content of t onto self
         self.__dict__.update(t.__dict__)
 
+        # The identity used for fast comparison and caching must be that of
+        # the new object: t may be freed and its address reused while self
+        # is still alive.
+        self._id = id(self)
+
     def is_svar(self) -> bool:
         return self.ty == Term.SVAR
 
